@@ -188,7 +188,14 @@ def check(ax, case, rec):
             if c == "AX" and f == "Bvv":
                 tv = tu = (2,)  # value-value forms of axisymmetric fields act on the in-plane components (mass matrix)
             fun = integrand(rng, tv + tu, nq, nc, bcm, zero_theta=zt if f != "Bvv" else None)
-            form = fem.IntegralForm([fun], fc, dV, fc, grad_v=[gv], grad_u=[gu])
+            gkw_ = dict(grad_v=[gv], grad_u=[gu])
+            if gu and (case["seed"] + nc + nq) % 2 == 0:
+                # the documented defaults: a flag that is not given means "gradient space" for the first field
+                gkw_.pop("grad_u")
+                if gv:
+                    gkw_.pop("grad_v")
+                rec.label("default-gradient-flags")
+            form = fem.IntegralForm([fun], fc, dV, fc, **gkw_)
             got = dense(form.assemble(parallel=par))
             ref = ra.bilinear(fun, v0, v0, dV, gv, gu)
             cmp("bilinear", got, ref)
